@@ -346,7 +346,7 @@ class FContract:
                  post_objs=(), ghosts=None, label=None, effects=None,
                  no_return=False, free=None, pure=False, olds=None,
                  assumed_result=None, assumed_note='', returns_param=None,
-                 assumed_ensures=()):
+                 assumed_ensures=(), proof_ensures=()):
         self.qual = qual
         self.params = params            # ordered dict name -> Spec | None
         self.requires = list(requires)
@@ -367,6 +367,9 @@ class FContract:
         self.assumed_note = assumed_note
         self.returns_param = returns_param   # function returns this argument
         self.assumed_ensures = list(assumed_ensures)   # call side only
+        # proved for the body, NOT assumed at call sites (clauses over the
+        # ghost history of the activation, e.g. 'called X exactly once')
+        self.proof_ensures = list(proof_ensures)
 
     def loop(self, ordinal):
         ls = self.loops.get(ordinal)
@@ -414,7 +417,7 @@ class FContract:
         if self.result is not None:
             sp = self.result(A)
             sp.check(ex, st, result, 'post:result@' + tr)
-        for lab, fn in self.ensures:
+        for lab, fn in self.ensures + self.proof_ensures:
             ex.prove(st, 'post:%s@%s' % (lab, tr), fn(A, result))
         for lab, get, sp in self.post_objs:
             sp = sp(A) if callable(sp) and not isinstance(sp, Spec) else sp
